@@ -162,7 +162,7 @@ fn resource_corpus() -> WorldSrc {
 fn directed_fixed_list_world() -> WorldSrc {
     let pad: String = (1..=15).map(|i| format!(", p{i}: u64")).collect();
     let wit = format!(
-        "package verif:directed;\n\nworld fixed-list-heap {{\n  import dangling-strings: func(a: tuple<u8, list<string, 2>>{pad});\n  import dangling-lists: func(a: tuple<list<list<u8>, 2>, u8>{pad});\n}}\n"
+        "package verif:directed;\n\nworld fixed-list-heap {{\n  import dangling-strings: func(a: tuple<u8, list<string, 2>>{pad});\n  import dangling-lists: func(a: tuple<list<list<u8>, 2>, u8>{pad});\n  export leaky-strings: func() -> list<string, 2>;\n  export leaky-lists: func() -> tuple<u8, list<list<u16>, 2>>;\n}}\n"
     );
     WorldSrc { wit, origin: "directed:fixed-list-heap".into(), tags: vec!["directed".into(), "fixed-list".into()] }
 }
